@@ -10,10 +10,11 @@ CONSTANTS Prefill, FreshBase
 IfSet(c, s) == IF c THEN {s} ELSE {}
 BInit(p) == [bag |-> 1..Prefill, out |-> {}]
 BStep(s, c) ==
-  CASE c.op = "put"  -> IfSet(c.a \notin s.bag, [bag |-> s.bag \cup {c.a}, out |-> s.out \ {c.a}])
+  CASE c.op = "put"  -> IF FreshBase > 0 THEN {[bag |-> s.bag \cup {c.a}, out |-> s.out \ {c.a}], [bag |-> s.bag, out |-> s.out \ {c.a}]}   \* pool: kept, or returned to the heap
+                        ELSE IfSet(c.a \notin s.bag, [bag |-> s.bag \cup {c.a}, out |-> s.out \ {c.a}])
     [] c.op \in {"get", "getq"} ->
          IF c.r = 1 THEN IF c.v \in s.bag THEN {[bag |-> s.bag \ {c.v}, out |-> s.out \cup {c.v}]}
-                         ELSE IfSet(FreshBase > 0 /\ c.v >= FreshBase /\ c.v \notin s.out, [s EXCEPT !.out = @ \cup {c.v}])
+                         ELSE IfSet(FreshBase > 0 /\ c.v >= FreshBase /\ c.v \notin s.out, [s EXCEPT !.out = @ \cup {c.v}])   \* fresh from the heap
          ELSE IF c.op = "getq" THEN IfSet(s.bag = {}, s) ELSE {s}
     [] c.op = "putfull" -> {[s EXCEPT !.out = @ \ {c.a}]}      \* lazy pool: deallocate into a full queue returns the object to the heap
     [] c.op = "empty" -> {s}
